@@ -267,11 +267,11 @@ Section PvssProofs.
 
   Theorem dec_verifies_iff (G X : F) (e d : pvshare q) :
     verify_dec_share Hc G X e d = VOk <->
-    sI d = sI e /\ pC (sP d) = Hc [X; sV e; pVG (sP d); pVH (sP d)] /\
+    sI d = sI e /\ pC (sP d) = Hc [X; sV e; sV d; pVG (sP d); pVH (sP d)] /\
     dleq_eqs (sP d) G (sV d) X (sV e).
   Proof.
-    unfold verify_dec_share. destruct (Z.eqb_spec (sI d) (sI e)) as [EI|NI]; cbn [negb].
-    - destruct (zeqb (pC (sP d)) (Hc [X; sV e; pVG (sP d); pVH (sP d)])) eqn:E; cbn [negb].
+    unfold verify_dec_share, dec_challenge. destruct (Z.eqb_spec (sI d) (sI e)) as [EI|NI]; cbn [negb].
+    - destruct (zeqb (pC (sP d)) (Hc [X; sV e; sV d; pVG (sP d); pVH (sP d)])) eqn:E; cbn [negb].
       + apply zeqb_eq in E. destruct (dleq_verify (sP d) G (sV d) X (sV e)) eqn:V.
         * apply dleq_accept_iff in V. split; auto.
         * split; [discriminate|]. intros [_ [_ K]]. apply dleq_accept_iff in K. congruence.
@@ -334,11 +334,11 @@ Section PvssProofs.
                 verify_dec_share Hc G X e (set_P d (set_R (sP d) r')) = VProof) /\
     (forall g', g' <> pVG (sP d) -> verdict_ok (verify_dec_share Hc G X e (set_P d (set_VG (sP d) g'))) = false) /\
     (forall h', h' <> pVH (sP d) -> verdict_ok (verify_dec_share Hc G X e (set_P d (set_VH (sP d) h'))) = false) /\
-    (forall v', v' <> sV d -> pR (sP d) <> zzero -> verify_dec_share Hc G X e (set_V d v') = VProof) /\
+    (forall v', v' <> sV d -> pR (sP d) <> zzero -> verdict_ok (verify_dec_share Hc G X e (set_V d v')) = false) /\
     (forall s', s' <> sV e -> pC (sP d) <> zzero -> verdict_ok (verify_dec_share Hc G X (set_V e s') d) = false) /\
     (forall X', X' <> X -> pC (sP d) <> zzero -> verdict_ok (verify_dec_share Hc G X' e d) = false).
   Proof.
-    intros A. apply dec_verifies_iff in A. destruct A as [EI [EC A]]. apply dleq_accept_iff in A.
+    intros A. apply dec_verifies_iff in A. unfold verify_dec_share, dec_challenge. destruct A as [EI [EC A]]. apply dleq_accept_iff in A.
     repeat split.
     - intros i' Hne. unfold verify_dec_share, set_I. cbn [sI].
       destruct (Z.eqb_spec i' (sI e)); [congruence|reflexivity].
@@ -358,7 +358,8 @@ Section PvssProofs.
       destruct (negb (zeqb (pC (set_VH (sP d) h')) _)); [reflexivity|].
       rewrite dleq_mut_VH; auto.
     - intros v' Hne Hnz. unfold verify_dec_share, set_V. cbn [sI sP sV].
-      rewrite EI, Z.eqb_refl. cbn [negb]. rewrite <- EC, zeqb_refl. cbn [negb].
+      rewrite EI, Z.eqb_refl. cbn [negb].
+      destruct (negb (zeqb (pC (sP d)) _)); [reflexivity|].
       rewrite (dleq_mut_H _ _ _ _ _ A); auto.
     - intros s' Hne Hnz. unfold verify_dec_share, set_V. cbn [sI sP sV].
       rewrite EI, Z.eqb_refl. cbn [negb].
@@ -624,9 +625,8 @@ Section PvssProofs.
   Proof.
     intros Hx -> A. unfold dec_share. rewrite A. eexists. split; [reflexivity|].
     cbn [sI sV]. split; [reflexivity|]. split; [reflexivity|].
-    apply dec_verifies_iff. cbn [sI sV sP]. unfold dleq_prove. cbv zeta. cbn [fst].
-    assert (E : smul x (smul (zinv x) (sV e)) = sV e) by (unfold smul; field; exact Hx).
-    rewrite E. unfold dleq_proof_c. cbn [pC pR pVG pVH]. split; [reflexivity|]. split; [reflexivity|].
+    apply dec_verifies_iff. cbn [sI sV sP]. unfold dleq_proof_c, dec_challenge. cbn [pC pR pVG pVH].
+    split; [reflexivity|]. split; [reflexivity|].
     set (c := Hc _). unfold dleq_eqs. cbn [pC pR pVG pVH]. unfold padd, smul, pbase. split; [ring|field; exact Hx].
   Qed.
 
@@ -925,6 +925,111 @@ Section PvssProofs.
       by (destruct (verify_enc_share H (fst r) (fst (snd r)) (fst (snd (snd r))) (snd (snd (snd r)))); try discriminate; reflexivity).
     destruct (pvss_dec_honest H (fst r) (fst (snd r)) x (fst (snd (snd r))) (snd (snd (snd r))) v Hx EX V) as [d' [E' [_ [_ Vd]]]].
     rewrite Dv in E'. injection E' as <-. exact Vd.
+  Qed.
+
+
+  (* ---------------------------------------------------------------- the decrypted share and the challenge *)
+
+  Theorem dec_unrepaired_verifies_iff (G X : F) (e d : pvshare q) :
+    verify_dec_share_unrepaired Hc G X e d = VOk <->
+    sI d = sI e /\ pC (sP d) = Hc [X; sV e; pVG (sP d); pVH (sP d)] /\
+    dleq_eqs (sP d) G (sV d) X (sV e).
+  Proof.
+    unfold verify_dec_share_unrepaired. destruct (Z.eqb_spec (sI d) (sI e)) as [EI|NI]; cbn [negb].
+    - destruct (zeqb (pC (sP d)) (Hc [X; sV e; pVG (sP d); pVH (sP d)])) eqn:E; cbn [negb].
+      + apply zeqb_eq in E. destruct (dleq_verify (sP d) G (sV d) X (sV e)) eqn:V.
+        * apply dleq_accept_iff in V. split; auto.
+        * split; [discriminate|]. intros [_ [_ K]]. apply dleq_accept_iff in K. congruence.
+      + split; [discriminate|]. intros [_ [K _]]. apply zeqb_eq in K. congruence.
+    - split; [discriminate|]. intros [K _]. contradiction.
+  Qed.
+
+  (* REFUTATION of "only correct shares verify" for the verifier before the
+     repair (weak Fiat-Shamir: the challenge did not cover the prover-chosen
+     base point V).  A trustee with key x picks v and W, sets VG = vG, VH = W,
+     c = Hc(X, xS, VG, VH), r = v - c x and solves the second verification
+     equation for V' = r^-1 (W - c xS).  The share is accepted for EVERY hash
+     function, and V' is wrong whenever W <> v x^-1 xS. *)
+  Theorem dec_share_forgery_before_repair (x v W : F) (e : pvshare q) :
+    let X := smul x pbase in
+    let c := Hc [X; sV e; smul v pbase; W] in
+    let r := zsub v (zmul c x) in
+    let V' := smul (zinv r) (psub W (smul c (sV e))) in
+    let d := mkShare (sI e) V' (mkProof c r (smul v pbase) W) in
+    x <> zzero -> r <> zzero ->
+    verify_dec_share_unrepaired Hc pbase X e d = VOk /\
+    (W <> smul v (smul (zinv x) (sV e)) -> V' <> smul (zinv x) (sV e)).
+  Proof.
+    cbv zeta. intros Hx Hr. split.
+    - apply dec_unrepaired_verifies_iff. cbn [sI sV sP pC pR pVG pVH]. split; [reflexivity|]. split; [reflexivity|].
+      set (c := Hc _) in *. unfold dleq_eqs. cbn [pC pR pVG pVH]. unfold padd, psub, smul, pbase. split; [ring|field; exact Hr].
+    - set (c := Hc _) in *. intros HW E. apply HW.
+      assert (K : zmul (zsub v (zmul c x)) (smul (zinv (zsub v (zmul c x))) (psub W (smul c (sV e)))) = psub W (smul c (sV e)))
+        by (unfold smul, psub; field; exact Hr).
+      rewrite E in K. unfold smul, psub in *.
+      transitivity (zadd (zsub W (zmul c (sV e))) (zmul c (sV e))); [ring|]. rewrite <- K. field. exact Hx.
+  Qed.
+
+  (* the same strategy against the repaired verifier needs the challenge to be
+     a hash of V' itself: an accepted share carries C = Hc(X, xS, V, VG, VH) *)
+  Theorem dec_accepted_challenge_binds_V (G X : F) (e d : pvshare q) :
+    verify_dec_share Hc G X e d = VOk ->
+    pC (sP d) = Hc [X; sV e; sV d; pVG (sP d); pVH (sP d)].
+  Proof. intros A. apply dec_verifies_iff in A. exact (proj1 (proj2 A)). Qed.
+
+  (* soundness core for the decrypted share: if V is wrong (log_G X <> log_V xS,
+     i.e. X*V <> xS*G on logarithms) an accepted transcript has hit the single
+     challenge c* determined by the hash's own inputs (X, xS, V, VG, VH) *)
+  Theorem dec_wrong_share_one_challenge (G X : F) (e d : pvshare q) :
+    verify_dec_share Hc G X e d = VOk ->
+    zmul X (sV d) <> zmul (sV e) G ->
+    Hc [X; sV e; sV d; pVG (sP d); pVH (sP d)] =
+    zdiv (zsub (zmul (pVG (sP d)) (sV d)) (zmul (pVH (sP d)) G)) (zsub (zmul X (sV d)) (zmul (sV e) G)).
+  Proof.
+    intros A Hw. apply dec_verifies_iff in A. destruct A as [_ [EC A]]. apply dleq_accept_iff in A.
+    apply dleq_sound_core in A. rewrite <- EC.
+    assert (D : zsub (zmul X (sV d)) (zmul (sV e) G) <> zzero) by (intros E; apply zsub_eq_0 in E; contradiction).
+    rewrite <- A. field. exact D.
+  Qed.
+
+  Corollary dec_wrong_share_one_challenge_key (x : F) (e d : pvshare q) :
+    x <> zzero ->
+    verify_dec_share Hc pbase (smul x pbase) e d = VOk ->
+    sV d <> smul (zinv x) (sV e) ->
+    Hc [smul x pbase; sV e; sV d; pVG (sP d); pVH (sP d)] =
+    zdiv (zsub (zmul (pVG (sP d)) (sV d)) (zmul (pVH (sP d)) pbase))
+         (zsub (zmul (smul x pbase) (sV d)) (zmul (sV e) pbase)).
+  Proof.
+    intros Hx A Hw. apply dec_wrong_share_one_challenge; [exact A|].
+    intros E. apply Hw. unfold smul, pbase in *.
+    transitivity (zmul (zinv x) (zmul (zmul x zone) (sV d))); [field; exact Hx|]. rewrite E. ring.
+  Qed.
+
+  Lemma dec_ok_dleq (Hx : list F -> F) (G X : F) (e d : pvshare q) :
+    verify_dec_share Hx G X e d = VOk -> dleq_verify (sP d) G (sV d) X (sV e) = true.
+  Proof.
+    unfold verify_dec_share. destruct (negb (sI d =? sI e)%Z); [discriminate|].
+    destruct (negb (zeqb (pC (sP d)) _)); [discriminate|].
+    destruct (dleq_verify (sP d) G (sV d) X (sV e)); [reflexivity|discriminate].
+  Qed.
+
+  (* special soundness (two hash oracles = rewinding): two accepted transcripts
+     for the same (V, VG, VH) with different challenges force V = x^-1 xS *)
+  Theorem dec_special_sound (Hc' : list F -> F) (x : F) (e d d' : pvshare q) :
+    x <> zzero ->
+    verify_dec_share Hc pbase (smul x pbase) e d = VOk ->
+    verify_dec_share Hc' pbase (smul x pbase) e d' = VOk ->
+    sV d = sV d' -> pVG (sP d) = pVG (sP d') -> pVH (sP d) = pVH (sP d') ->
+    pC (sP d) <> pC (sP d') ->
+    sV d = smul (zinv x) (sV e).
+  Proof.
+    intros Hx A B EV EG EH Hne.
+    apply dec_ok_dleq in A. apply dec_ok_dleq in B.
+    assert (B' : dleq_verify (sP d') pbase (sV d) (smul x pbase) (sV e) = true) by (rewrite EV; exact B).
+    destruct (dleq_special_sound (sP d) (sP d') pbase (sV d) (smul x pbase) (sV e) EG EH Hne A B') as [W1 W2].
+    set (w := zdiv (zsub (pR (sP d')) (pR (sP d))) (zsub (pC (sP d)) (pC (sP d')))) in *.
+    assert (Ew : w = x). { unfold smul, pbase in W1. transitivity (zmul w zone); [ring|]. rewrite <- W1. ring. }
+    rewrite Ew in W2. rewrite W2. unfold smul. field. exact Hx.
   Qed.
 
 End PvssProofs.
